@@ -32,7 +32,7 @@ fn list_of(s: &str) -> Vec<Name> {
         body.split(',').map(opt_of).collect()
     }
 }
-fn show_file(f: &ASetFile) -> String {
+pub fn show_file(f: &ASetFile) -> String {
     let mut parts = vec![show_opt(&f.meta), show_list("c:", &f.anim_clip_table)];
     for s in &f.sets {
         parts.push(show_list("s:", s));
